@@ -581,10 +581,52 @@ func checkConv(t ev.T, test string, c ConvCase) {
 	})
 }
 
+// checkConvShapes: "map each backend condition to one stable kind" - the kind must not depend on the shape in which
+// the condition reaches the converter (bare, inside a PathError / LinkError / SyscallError, behind %w ...).
+func checkConvShapes(t ev.T, test string, c ConvCase) {
+	var conv func(error) error
+	for _, cv := range converters {
+		if cv.Name == c.Converter {
+			conv = cv.F
+		}
+	}
+	var base error
+	for _, b := range backendValues {
+		if b.Name == c.Value {
+			base = b.Err
+		}
+	}
+	if conv == nil {
+		t.Fatalf("HARNESS: bad case %+v", c)
+	}
+	ev.Guard(t, prop, test, c, func() {
+		ref, refShape := "", ""
+		for i, w := range wrappings {
+			out := conv(wrap(w, base))
+			k := strings.Join(kindsOf(out), ",")
+			switch {
+			case out == nil:
+				k = "<nil>"
+			case k == "":
+				k = "<none of the kinds>"
+			}
+			if i == 0 {
+				ref, refShape = k, w
+			} else if k != ref {
+				ev.Fail(t, prop, test, c, "%s maps the backend condition %s to %s when it arrives as %s but to %s when it arrives as %s", c.Converter, c.Value, ref, refShape, k, w)
+			}
+		}
+	})
+}
+
 func replayConv(t ev.T, raw json.RawMessage) {
 	var c ConvCase
 	if err := json.Unmarshal(raw, &c); err != nil {
 		t.Fatalf("HARNESS: %v", err)
+	}
+	if c.Wrapping == "*" {
+		checkConvShapes(t, "TestConverters", c)
+		return
 	}
 	checkConv(t, "TestConverters", c)
 }
@@ -598,6 +640,8 @@ func TestConverters(t *testing.T) {
 				checkConv(t, "TestConverters", ConvCase{cv.Name, b.Name, w})
 				n++
 			}
+			checkConvShapes(t, "TestConverters", ConvCase{cv.Name, b.Name, "*"})
+			n++
 		}
 	}
 	ev.Bulk(n, n, "converters")
